@@ -188,7 +188,9 @@ Contexts(shape, cols, flags) == [i \in DOMAIN cols[1] |-> Layout(shape, cols, fl
 CONSTANTS Family,      \* which family of cases this run enumerates (a string, see Init)
           MaxRows,     \* rows of the one-feature data sets
           MaxRows2,    \* rows of the two-feature data sets
-          NumsS, NumsI \* the numbers in Scale / Impute data
+          NumsS, NumsI,\* the numbers in Scale / Impute data
+          Usings,      \* the windows of the one-feature data sets (0 = None = all)
+          Lite         \* TRUE: fewer given numbers and fewer lists of statistics (quick tier)
 VARIABLES c, go
 vars == <<c, go>>
 
@@ -206,10 +208,12 @@ Comp(n) == {SubSeq(k, 1, n) : k \in Companions}
 Const(n, d) == [k |-> "const", n |-> n, d |-> d]
 Stat(s)     == [k |-> s, n |-> 0, d |-> 1]
 Shifts      == {Const(0, 1), Const(2, 1), Stat("min"), Stat("mean"), Stat("median")}
-Scales      == {Const(2, 1), Const(1, 2), Stat("minmax"), Stat("std"), Stat("iqr"), Stat("maxabs")}
-Usings      == {0, 1, 2, 5}
+Scales      == {Const(2, 1), Stat("minmax"), Stat("std"), Stat("iqr"), Stat("maxabs")} \cup (IF Lite THEN {} ELSE {Const(1, 2)})
+Usings2     == {0, 2, 5}                                   \* windows of the two-feature data sets
 Stats       == {"mean", "median", "mode"}
-StatLists   == {<<a>> : a \in Stats} \cup {<<a, b>> : a \in Stats, b \in Stats}
+StatLists   == {<<a>> : a \in Stats} \cup
+               (IF Lite THEN {<<"mean", "mode">>, <<"mode", "mean">>, <<"median", "mode">>, <<"mean", "median">>, <<"mean", "mean">>}
+                ELSE {<<a, b>> : a \in Stats, b \in Stats})
 
 ScaleCase(shape, cols, sh, sc, u)    == [f |-> "scale",  shape |-> shape, cols |-> cols, sh |-> sh, sc |-> sc, using |-> u]
 ImputeCase(shape, cols, st, ind, u)  == [f |-> "impute", shape |-> shape, cols |-> cols, stats |-> st, ind |-> ind, using |-> u]
@@ -237,7 +241,7 @@ Init ==
                c = ScaleCase("sparse", <<a>>, Const(0, 1), sc, u)
        \/ /\ Family = "scale2"     \* two features
           /\ n >= 2 /\ n <= MaxRows2
-          /\ \E shape \in {"dense", "sparse"} : \E cols \in TwoCols(AlphaS \ {NaN}, n) : \E sh \in Shifts : \E sc \in Scales : \E u \in {0, 2} :
+          /\ \E shape \in {"dense", "sparse"} : \E cols \in TwoCols(AlphaS \ {NaN}, n) : \E sh \in Shifts : \E sc \in Scales : \E u \in Usings2 :
                c = ScaleCase(shape, cols, sh, sc, u)
        \/ /\ Family = "impute1"
           /\ \E shape \in {"dense", "scalar"} : \E a \in ColsOf(AlphaI, n) : \E st \in StatLists : \E ind \in BOOLEAN : \E u \in Usings :
@@ -247,7 +251,7 @@ Init ==
                c = ImputeCase("sparse", <<a>>, st, ind, u)
        \/ /\ Family = "impute2"
           /\ n >= 2 /\ n <= MaxRows2
-          /\ \E shape \in {"dense", "sparse"} : \E cols \in TwoCols(AlphaI \ {Str(2)}, n) : \E st \in StatLists : \E ind \in BOOLEAN : \E u \in {0, 1, 2} :
+          /\ \E shape \in {"dense", "sparse"} : \E cols \in TwoCols(AlphaI \ {Str(2)}, n) : \E st \in StatLists : \E ind \in BOOLEAN : \E u \in Usings2 :
                c = ImputeCase(shape, cols, st, ind, u)
   /\ InDomain(c)
 Next == ~go /\ go' = TRUE /\ UNCHANGED c
